@@ -213,3 +213,51 @@ CONTRACTS["optimization:Optimization.get_baselines"] = dict(
     ensures=[("C15.baselines_come_from_a_simulated_copy_of_the_model_one_per_measurable_in_order",
               "result == [('baseline of', 0), ('baseline of', 1)] and LOG[0][0] == 'loads' and LOG[1] == ('baseline', MEAS[0], LOG[0][2], True) and LOG[2] == ('baseline', MEAS[1], LOG[0][2], True)")],
     defined_props=["C15"])
+
+
+def _replay_two_constraints(model, contract):
+    """replay on the REAL Optimization.constrain_instructions: two total-spend constraints (2020 and 2025) over three programs adjustable in both years; a proposal that
+    breaks the SECOND constraint must come back meeting it"""
+    import atomica as at
+    import atomica.optimization as ao
+
+    progs = ("a", "b", "c")
+    adj = [ao.SpendingAdjustment(p, [2020.0, 2025.0], "abs", 10.0, 500.0) for p in progs]
+    cons = [ao.TotalSpendConstraint(total_spend=300.0, t=2020.0), ao.TotalSpendConstraint(total_spend=600.0, t=2025.0)]
+    opt = ao.Optimization(name="o", adjustments=adj, measurables=[ao.MaximizeMeasurable("x", 2025)], constraints=cons)
+    start = at.ProgramInstructions(start_year=2020, alloc={p: at.TimeSeries([2020.0, 2025.0], [100.0, 200.0]) for p in progs})
+    hard = opt.get_hard_constraints([100.0, 200.0] * 3, start)
+    proposal = at.ProgramInstructions(start_year=2020, alloc={"a": at.TimeSeries([2020.0, 2025.0], [100.0, 900.0]), "b": at.TimeSeries([2020.0, 2025.0], [100.0, 50.0]), "c": at.TimeSeries([2020.0, 2025.0], [100.0, 1.0])})
+    pre = dict(constraints={2020.0: 300.0, 2025.0: 600.0}, bounds=[10.0, 500.0], proposal_2025=[900.0, 50.0, 1.0])
+    try:
+        opt.constrain_instructions(proposal, hard)
+    except ao.FailedConstraint:
+        return dict(verdict="holds", detail="the proposal was refused (FailedConstraint)", prestate=pre)
+    got = [float(proposal.alloc[p].get(2025.0)) for p in progs]
+    if abs(sum(got) - 600.0) > 1e-3 or min(got) < 10.0 - 1e-6 or max(got) > 500.0 + 1e-6:
+        return dict(verdict="violates", detail="after constrain_instructions the 2025 allocation is %r: total %r (required 600), bounds [10, 500]" % (got, sum(got)), prestate=pre)
+    return dict(verdict="holds", detail="the 2025 allocation %r meets its total and bounds" % got, prestate=pre)
+
+
+CONTRACTS["optimization:Optimization.constrain_instructions"]["replay_hook"] = _replay_two_constraints
+
+
+def _replay_objective_sum(model, contract):
+    """replay on the REAL Optimization.compute_objective with three real measurables whose values are known: the objective is their sum"""
+    import atomica.optimization as ao
+
+    class _M(ao.Measurable):
+        def __init__(self, v):
+            ao.Measurable.__init__(self, "x", t=2020, weight=1.0)
+            self.v = v
+
+        def eval(self, model, baseline):
+            return self.v + (baseline or 0.0)
+
+    opt = ao.Optimization(name="o", adjustments=[ao.SpendingAdjustment("a", 2020.0)], measurables=[_M(1.0), _M(20.0), _M(300.0)])
+    got = float(opt.compute_objective(None, [0.0, 0.5, 0.25]))
+    want = 1.0 + 20.5 + 300.25
+    return dict(verdict="holds" if got == want else "violates", detail="three measurables evaluating to 1, 20.5 and 300.25 give the objective %r (their sum is %r)" % (got, want), prestate=dict(values=[1.0, 20.5, 300.25]))
+
+
+CONTRACTS["optimization:Optimization.compute_objective"]["replay_hook"] = _replay_objective_sum
